@@ -14,6 +14,7 @@ backend instance records which instance actually executed a dispatched call.
 import itertools
 import queue
 import sys
+import contextvars
 import threading
 import time
 
@@ -40,7 +41,7 @@ WALL_BUDGET = {"quick": 900, "thorough": 3600}
 # ------------------------------------------------------------------------------------------------------------
 # plan: exhaustive sequences are chunked by their first two operations so that shards get equal work
 BOGUS = ("bogus", "bogusl", "bogusenterg", "bogusenterl")
-EXITS = ("exit", "exitx", "exitb")
+EXITS = ("exit", "exitx", "exitb", "exit0")   # exit0: the OLDEST open context of the thread is closed (entry order, as streaming generators do)
 DECO = ("decog", "decol")
 _BOGUS_TURN = [0]
 
@@ -55,7 +56,7 @@ def alphabet(nb, all_bogus=False):
         ops += [("setg", b), ("setl", b), ("enterg", b), ("enterl", b)]
     ops += [("bogus", None), ("exit", None), ("exitx", None), ("query", None)]
     if all_bogus:
-        ops += [(b, None) for b in BOGUS[1:]] + [("exitb", None)]
+        ops += [(b, None) for b in BOGUS[1:]] + [("exitb", None), ("exit0", None)]
         for b in range(nb):
             ops += [("decog", b), ("decol", b)]
     return ops
@@ -150,7 +151,13 @@ class Manager:
         self.mod._default_backend = self.initial
 
     def reset_thread(self):
-        self.mod._THREAD_LOCAL_DATA.__dict__.pop("backend", None)
+        """forget this thread's selection; False when the per-thread store is not a threading.local this harness can clear (then only
+        a fresh thread is a pristine one, see reset_all)"""
+        store = getattr(self.mod, "_THREAD_LOCAL_DATA", None)
+        if isinstance(store, threading.local):
+            store.__dict__.clear()
+            return True
+        return False
 
     def observe(self):
         """(name seen, identity matches name, backend that executed a dispatched call)"""
@@ -193,14 +200,20 @@ class Worker(threading.Thread):
             # right here: do that first, then clear this thread's selection
             for s in self.stacks.values():
                 s.clear()
-            for m in self.mgrs.values():
-                m.reset_thread()
-            return None
+            return all([m.reset_thread() for m in self.mgrs.values()])
         m = self.mgrs[mname]
         if kind == "observe":
             return m.observe()
         if kind == "op":
             return do_op(m, self.stacks[mname], op, arg)
+        if kind == "op_ctx":
+            # the same operation from inside a contextvars.Context.run callback (what an asyncio task or a to_thread hop is): the
+            # selection belongs to the thread, not to the execution context that happened to be current
+            return contextvars.copy_context().run(do_op, m, self.stacks[mname], op, arg)
+        if kind == "grab_ctx":
+            return contextvars.copy_context()
+        if kind == "observe_ctx":
+            return arg.run(m.observe)
         raise ValueError(kind)
 
 
@@ -235,12 +248,12 @@ def do_op(m, stack, op, arg):
         cm.__enter__()
         stack.append(cm)
         return "ok"
-    if op in ("exit", "exitx", "exitb"):
+    if op in EXITS:
         if not stack:
             return "noop"
-        cm = stack.pop()
+        cm = stack.pop(0 if op == "exit0" else -1)
         try:
-            if op == "exit":
+            if op in ("exit", "exit0"):
                 cm.__exit__(None, None, None)
             else:
                 # "by exception" includes the exceptions that are not Exception subclasses: an interrupt, a generator being closed
@@ -250,7 +263,7 @@ def do_op(m, stack, op, arg):
                 if suppressed:
                     return "suppressed"
         except (RuntimeError, _LeaveByBaseException) as e:
-            if op != "exit" and "leaving the context" in str(e):
+            if op in ("exitx", "exitb") and "leaving the context" in str(e):
                 return "ok"
             return "exit-raised-%s" % type(e).__name__
         except Exception as e:  # noqa
@@ -312,8 +325,10 @@ def model_step(states, t, op, b):
             if not stacks[t]:
                 out.add((g, priv, stacks))
                 continue
-            prev, local = stacks[t][-1]
-            stacks_l[t] = stacks[t][:-1]
+            # a context restores the backend that was current when IT was entered, whichever open context of the thread it is
+            at = 0 if op == "exit0" else len(stacks[t]) - 1
+            prev, local = stacks[t][at]
+            stacks_l[t] = stacks[t][:at] + stacks[t][at + 1:]
             gs = [g] if local else [g, prev]          # local flavour must leave the shared default alone
             for g2 in set(gs):
                 p1 = list(priv_l)
@@ -344,26 +359,40 @@ def pool(n):
 
 
 def reset_all(mgrs, workers):
+    in_place = True
     for w in _POOL["workers"]:
-        w.call("reset")
+        in_place = bool(w.call("reset")) and in_place
     for m in mgrs.values():
-        m.reset_thread()
+        in_place = bool(m.reset_thread()) and in_place
         m.reset_shared()
+    if not in_place:
+        # the library keeps the per-thread selection somewhere this harness cannot clear: retire the threads, fresh ones are pristine
+        for w in _POOL["workers"]:
+            w.q.put(None)
+        _POOL["workers"] = []
+        _POOL["fresh_threads_per_history"] = _POOL.get("fresh_threads_per_history", 0) + 1
+        for m in mgrs.values():
+            m.reset_shared()
+    return in_place
 
 
 def run_history(ctx, mname, hist, nthreads, nb, label):
     """execute a history [(thread, op, backend index)] step by step, checking the model after each operation"""
     mgrs, workers = pool(nthreads)
+    if not reset_all(mgrs, workers):
+        mgrs, workers = pool(nthreads)
     m = mgrs[mname]
     other = mgrs["tenalg" if mname == "backend" else "backend"]
-    reset_all(mgrs, workers)
     states = model_init(nthreads, m.names[0])
     other_before = other.observe()[0]
     max_states = 1
     trace = []
     for step, (t, op, b) in enumerate(hist):
         bname = m.names[b] if b is not None else None
-        outcome = workers[t].call("op", mname, op, b)
+        via_ctx = (step + len(hist) + t) % 3 == 0
+        outcome = workers[t].call("op_ctx" if via_ctx else "op", mname, op, b)
+        if via_ctx:
+            ctx.count("ops_inside_a_context_run_callback")
         if op in BOGUS:
             ctx.count("rejected_selections")
             ctx.count("rejected_by/" + op)
@@ -377,11 +406,11 @@ def run_history(ctx, mname, hist, nthreads, nb, label):
                 ctx.violation("C17:%s:decorated-context:%s" % (mname, op), "inside a recursive function decorated with backend_context(%s) the thread observed %s" % (bname, outcome), {"history": hist[:step + 1]})
                 return False
         if op in EXITS and outcome not in ("ok", "noop"):
-            ctx.violation("C17:%s:context-exit:%s" % (mname, outcome), "leaving backend_context (%s) %s" % ("by exception" if op != "exit" else "normally", outcome),
+            ctx.violation("C17:%s:context-exit:%s" % (mname, outcome), "leaving backend_context (%s) %s" % ("by exception" if op in ("exitx", "exitb") else "normally", outcome),
                           {"history": hist[:step + 1], "manager": mname})
             return False
         if op in EXITS and outcome == "ok":
-            ctx.count("context_exits/%s" % {"exit": "normal", "exitx": "exception", "exitb": "base-exception"}[op])
+            ctx.count("context_exits/%s" % {"exit": "normal", "exitx": "exception", "exitb": "base-exception", "exit0": "oldest-first"}[op])
         obs = [w.call("observe", mname) for w in workers]
         ctx.count("observations", len(obs))
         trace.append({"t": t, "op": op, "b": bname, "views": [o[0] for o in obs]})
@@ -391,6 +420,19 @@ def run_history(ctx, mname, hist, nthreads, nb, label):
                 ctx.violation("C17:%s:dispatch-mismatch:any" % mname, "thread %d sees backend %r but current_backend() identity ok=%s and the dispatched call ran on %r" % (ti, name, ident, ran),
                               {"history": hist[:step + 1], "trace": trace})
                 return False
+        if (step + t) % 2 == 0 and nthreads > 1:
+            # the acting thread's execution context handed to the other threads (asyncio.to_thread, Context.run in a worker): what a
+            # thread observes is its own selection, not the one of the thread whose context it carries
+            cobj = workers[t].call("grab_ctx", mname)
+            for ti, w in enumerate(workers):
+                if ti == t:
+                    continue
+                name_c, ident_c, ran_c = w.call("observe_ctx", mname, None, cobj)
+                ctx.count("observations_under_a_foreign_context")
+                if name_c != obs[ti][0] or not ident_c or ran_c != name_c:
+                    ctx.violation("C17:%s:foreign-context-observation:%s" % (mname, op), "thread %d, running under a copy of thread %d's execution context, observes %r / runs on %r; "
+                                  "on its own it observes %r" % (ti, t, name_c, ran_c, obs[ti][0]), {"history": hist[:step + 1], "trace": trace})
+                    return False
         states = model_step(states, t, op, bname)
         filtered = model_filter(states, [o[0] for o in obs])
         max_states = max(max_states, len(states))
@@ -425,7 +467,7 @@ def run_case(case, ctx):
             # the single "rejected selection" letter stands for its four spellings (set / context entry x global / thread-local),
             # which the model treats alike: rotate through them by position so that each occurs in every context
             rot = len(seq) * case["prefix"][0] + case["prefix"][1]
-            hist = [(t, (BOGUS[(k + t + rot) % 4] if op == "bogus" else ("exitb" if op == "exitx" and (k + t + rot) % 2 else op)), b) for k, (t, (op, b)) in enumerate(seq)]
+            hist = [(t, (BOGUS[(k + t + rot) % 4] if op == "bogus" else ("exitb" if op == "exitx" and (k + t + rot) % 2 else ("exit0" if op == "exit" and (k + t + rot) % 3 == 0 else op))), b) for k, (t, (op, b)) in enumerate(seq)]
             # an exit with nothing to leave is a no-op identical to `query`: such sequences are covered by their query twin
             depth, redundant = [0, 0], False
             for t_, op_, _b in hist:
@@ -467,7 +509,8 @@ def run_case(case, ctx):
     if g == "cross_manager":
         # interleave operations on both managers; each manager's observations must follow its own model only
         mgrs, workers = pool(2)
-        reset_all(mgrs, workers)
+        if not reset_all(mgrs, workers):
+            mgrs, workers = pool(2)
         st = {mn: model_init(2, mgrs[mn].names[0]) for mn in mgrs}
         hist = []
         for _ in range(int(rs.randint(10, 40))):
